@@ -23,9 +23,13 @@ def fr(v):
 class P(Prop):
     id = "C19"
     design_ref = "DESIGN.md section 5, C19"
-    theorems = []
-    theorems_planned = [
-        ("TracklibVerif.Props.C19", "TV.C19.cell_footprint", ""),
+    theorems = [
+        ("TracklibVerif.Props.C19", "TV.C19.cell_footprint", "a point of the extent gets a cell 0<=col<ncol, 0<=line<nrow whose footprint (half-open, closed on the outer top/right) contains it, and no other cell's footprint does"),
+        ("TracklibVerif.Props.C19", "TV.C19.cell_outside", "a point outside the extent gets no cell"),
+        ("TracklibVerif.Props.C19", "TV.C19.conservation", "the scatter never fails; cell (i,j) holds exactly the values of the observations whose getCell is (j,i); sizes sum to the number of observations, any per-value weight (e.g. non-NaN) is conserved"),
+        ("TracklibVerif.Props.C19", "TV.C19.aggregate_spec", "co_count/co_sum/co_min/co_max/co_avg/co_median = that aggregate over the non-NaN values; no non-NaN value -> 0 for count and sum, no-data otherwise"),
+        ("TracklibVerif.Props.C19", "TV.C19.aggregates_entry", "computeAggregates writes, in (line i, column j), the operator's value on that cell with NaN replaced by the no-data value"),
+        ("TracklibVerif.Props.C19", "TV.C19.rat_floor_ceil", "the driver's Rat.floor / Rat.ceil are the Int.floor / Int.ceil of the theorems"),
     ]
     partial = []
     open_statements = ["IEEE rounding in (x-xmin)/rx, margins and sums is outside the theorems (floor-ring statement); sampled by the transfer check"]
